@@ -164,6 +164,9 @@ func (flex *FlexEncoder03) encodeFlexFecPacket(fecPacketIndex uint32, mediaBaseS
 			// Packet is too large for our fixed buffer, fallback to dynamic allocation
 			tmpMediaPacketBuf = make([]byte, packetSize)
 		}
+		// MarshalTo writes only the last byte of the RTP padding; the other padding bytes must be
+		// zero, not what the reused buffer held before.
+		clear(tmpMediaPacketBuf[:packetSize])
 
 		n, err := mediaPacket.MarshalTo(tmpMediaPacketBuf[:packetSize])
 		if n == 0 || err != nil {
